@@ -113,6 +113,8 @@ def gen(tape):
         "store": tape.chance("config", 1, 2, "store-logs"),
         # what stages return and their Deferreds fire with (nothing about the run may depend on it)
         "value": tape.weighted("config", [(8, None), (1, "zero"), (1, "any")], "stage-value"),
+        # the innocent test that follows is synchronous or waits for a delayed call
+        "followup_async": tape.chance("config", 1, 2, "follow-up-test-is-asynchronous"),
     }
     events = []
     for _ in range(tape.weighted("faults", [(9 - 2 * hot, 0), (hot, 1), (1 if hot > 2 else 0, 2)], "n-events")):
@@ -157,7 +159,7 @@ def model(stages, cleanups, cfg, events):
             elif s[0] == "drop_failed":
                 m["unhandled"] += 1
             elif s[0] == "interrupt":
-                inner.append((t, len(m["starts"]) - 1))
+                inner.append((t, len(m["starts"]) - 1, s[1]))
         kind, exc, d = spec["end"][:3]
         if kind == "never":
             t = INF
@@ -197,7 +199,7 @@ def model(stages, cleanups, cfg, events):
                 m["tie"] = True
         elif at == limit and m["async"]:
             m["tie"] = True
-    for at, idx in inner:
+    for at, idx, ikind in inner:
         # strict only if something after that instant completes strictly later
         later = [s for s in m["starts"][idx + 1:] if s[1] > at] or (t > at)
         if t > at or any(s[1] > at for s in m["starts"][idx + 1:]):
@@ -210,6 +212,10 @@ def model(stages, cleanups, cfg, events):
                 m["tie"] = True
         else:
             m["tie"] = True
+            if ikind == "sigint":
+                # Ctrl-C while the code that completes the run is executing: as to *which* outcome the rest of
+                # the model is a tie, but an interrupt it is (see "interrupt-lost" below)
+                m["sigint_at_completion"] = True
     if cut is not None:
         # a stage starting or completing exactly at the cut is a tie
         times = [s[1] for s in m["starts"]] + [t]
@@ -330,9 +336,16 @@ def run_one(tape, opts):
             w2 = World()
             t2 = TExt(w2, "followup")
 
+            # a stop request (Twisted's SIGINT handler queued reactor.stop, i.e. Spinner._fake_stop) that the
+            # first run never got to process is still sitting in the reactor
+            carried = any(getattr(c[0], "__name__", "") == "_fake_stop" for c in reactor.threadCallQueue)
+
             class FollowUp(testtools.TestCase):
                 def test_ok(self):
-                    pass
+                    if cfg.get("followup_async"):
+                        d = defer.Deferred()
+                        reactor.callLater(0.25, d.callback, None)     # (well inside the shortest timeout)
+                        return d
 
             try:
                 FollowUp("test_ok", runTest=factory).run(t2)
@@ -390,8 +403,17 @@ def run_one(tape, opts):
                     f"log observers before {obs_before} after {obs_after}")
     if sig_after[signal.SIGINT] != signal.default_int_handler:
         out.violate("signal-not-restored", "SIGINT", f"{sig_after[signal.SIGINT]!r}")
+    if kind is not None and raised is None and m.get("sigint_at_completion") and not m["stalled"]:
+        # "an interrupt yields an error (an interrupt also asks the result to stop)", for all interrupt instants
+        if kind == "success":
+            out.violate("interrupt-lost", "sigint-while-the-last-stage-finishes:reported=success",
+                        f"SIGINT arrived inside a stage whose completion ended the run; outcome {kind}, result.stop() called: {bool(stops)}; stages {stages} cfg {cfg} fired {sim.fired}")
+        if not stops:
+            out.violate("interrupt-lost", "sigint-while-the-last-stage-finishes:result-not-asked-to-stop",
+                        f"SIGINT arrived inside a stage whose completion ended the run; outcome {kind}; stages {stages} cfg {cfg} fired {sim.fired}")
+        out.probe("sigint-while-the-last-stage-finishes")
     if follow is not None and follow != ["addSuccess"]:
-        out.violate("leak-into-next-test", "followup:" + ",".join(follow)[:40],
+        out.violate("leak-into-next-test", "followup:" + ("carried-interrupt:" if carried else "") + ",".join(follow)[:40],
                     f"a trivial passing test run right after this one on the same reactor was reported as {follow}; first test: stages {stages} cfg {cfg} events {events} outcome {kind}")
     fired = [k for _, k in sim.fired]
     if kind is not None and m["stalled"] and raised is None:
